@@ -977,6 +977,79 @@ do_atom(int fi, int oi, int neg, int replay)
 	return bad;
 }
 
+/* ---- ISO year and week atoms on every day around the turn of the year ----
+ * %G %g %_g %V on the 8 days Dec 28 .. Jan 4 of each of the 28 turns 2000/01 .. 2027/28 (every weekday x leap
+ * combination: a Sunday Jan 3rd still belongs to the old ISO year, a Monday Dec 29th already to the new one);
+ * the line's value is what the library prints for the specifier (dconv -f SPEC), the constant is what it prints
+ * for Jan 4 (always in week 1 of the new ISO year) */
+static const struct {
+	const char *spec, *kind;
+} turnspec[4] = {
+	{"%G", "four-digit ISO year specifier"}, {"%g", "two-digit year specifier"}, {"%_g", "one-digit year specifier"}, {"%V", "ISO week number specifier"},
+};
+#define TURN_Y0	2000
+#define TURN_NY	28
+
+static int
+do_turn(int si, int yi, int oi, int neg, int replay)
+{
+	const struct aop *o = aops + oi;
+	char expr[64], cas[64], key[160], cmd[400];
+	char lines[32][40];
+	int val[8], cst;
+	struct xres r;
+	int bad = 0, y = TURN_Y0 + yi;
+	EX_CTR(c_turn, "turn_of_year_cases");
+
+	if (o->txt[0] == '\0') {
+		return 0;
+	}
+	for (int i = 0; i < 8; i++) {
+		char pb[32] = "";
+		struct dt_dt_s v;
+		if (i < 4) {
+			snprintf(lines[i], sizeof(lines[i]), "%04d-12-%02d", y, 28 + i);
+		} else {
+			snprintf(lines[i], sizeof(lines[i]), "%04d-01-%02d", y + 1, i - 3);
+		}
+		v = dt_strpdt(lines[i], NULL, NULL);
+		dt_strfdt(pb, sizeof(pb), turnspec[si].spec, v);
+		if (pb[0] < '0' || pb[0] > '9') {
+			fprintf(stderr, "c17: '%s' printed with %s gives '%s'\n", lines[i], turnspec[si].spec, pb);
+			exit(3);
+		}
+		val[i] = atoi(pb);
+	}
+	cst = val[7];
+	snprintf(expr, sizeof(expr), "%s%s%s%d", neg ? "!" : "", turnspec[si].spec, o->txt, cst);
+	run_expr(expr, lines, 8, &r);
+	++*c_eval;
+	++*c_turn;
+	*c_states += 8;
+	*c_trans += 8;
+	ex_outcome(ex_hash_mix(ex_hash(expr, strlen(expr)), r.sel ^ ((uint64_t)yi << 12) ^ ((uint64_t)r.stage << 24)));
+	snprintf(cas, sizeof(cas), "turn %d %d %d %d", si, yi, oi, neg);
+	snprintf(cmd, sizeof(cmd), "printf '%%s\\n' %s %s %s %s %s %s %s %s | dgrep '%s'", lines[0], lines[1], lines[2], lines[3], lines[4], lines[5], lines[6], lines[7], expr);
+	snprintf(key, sizeof(key), "atom %s op-%s%s at the turn of the year", turnspec[si].kind, o->word, neg ? " negated" : "");
+	if (replay) {
+		printf("  '%s' on %s .. %s: parse rc %d, stage %s, selected %02x; printed values %d %d %d %d %d %d %d %d\n", expr, lines[0], lines[7], r.parse_rc,
+		       stage_name[r.stage], r.sel, val[0], val[1], val[2], val[3], val[4], val[5], val[6], val[7]);
+	}
+	if (r.hang || r.died || r.asan_hits || r.parse_rc < 0) {
+		ex_viol(key, (double)y, cas, cmd, "'%s': %s", expr, r.parse_rc < 0 ? "rejected by the parser" : "child hung, died or had an ASan report");
+		return 1;
+	}
+	for (int i = 0; i < 8; i++) {
+		int want = op_truth(o, val[i] - cst) ^ neg;
+		if ((int)((r.sel >> i) & 1U) != want) {
+			ex_viol(key, (double)y, cas, cmd, "'%s' on line '%s' (dconv -f %s prints %d): %s, but %s(%d %s %d) is %s", expr, lines[i], turnspec[si].spec, val[i],
+				(r.sel >> i) & 1U ? "selected" : "not selected", neg ? "not " : "", val[i], o->txt, cst, want ? "true" : "false");
+			bad = 1;
+		}
+	}
+	return bad;
+}
+
 /* ---- pairs of atoms: every atom kind x operator (also omitted) in front of and behind every other ---- */
 enum { PK_Y, PK_A, PK_DATE, PK_TIME, PK_DT, NPK };
 static const char *const pk_name[NPK] = {"numeric specifier", "name specifier", "date bound", "time bound", "date-time bound"};
@@ -1766,7 +1839,9 @@ main(int argc, char *argv[])
 	if (ex.cas) {
 		int set, mode, inv, fi, oi, neg, ai, bi, dj;
 		char tree[MAXT];
-		if (sscanf(ex.cas, "repr %d %d %d", &ai, &bi, &dj) == 3 && ai >= 0 && ai < NREPR && bi >= 0 && bi < NRATOM && dj >= 0 && dj < 6) {
+		if (sscanf(ex.cas, "turn %d %d %d %d", &ai, &bi, &dj, &inv) == 4 && ai >= 0 && ai < 4 && bi >= 0 && bi < TURN_NY && dj >= 0 && dj < NAOP) {
+			return ex_replay_result(do_turn(ai, bi, dj, inv, 1), "turn of the year %d, %s", TURN_Y0 + bi, turnspec[ai].spec);
+		} else if (sscanf(ex.cas, "repr %d %d %d", &ai, &bi, &dj) == 3 && ai >= 0 && ai < NREPR && bi >= 0 && bi < NRATOM && dj >= 0 && dj < 6) {
 			return ex_replay_result(do_repr(ai, bi, dj, 1), "lines as %s, atom %s %s", reprs[ai].label, ratoms[bi].label, aops[dj].txt);
 		} else if (sscanf(ex.cas, "bindrepr %d %d %d %d", &ai, &bi, &dj, &inv) == 4 && ai >= 0 && ai < NREPR && bi >= 0 && bi < NRATOM && dj >= 0 && dj < 6) {
 			return ex_replay_result(do_bind_repr(ai, bi, dj, inv, 1), "binding lines as %s, atom %s %s", reprs[ai].label, ratoms[bi].label, aops[dj].txt);
@@ -1908,6 +1983,8 @@ main(int argc, char *argv[])
 		"self-checked on anchors) compared with the constant; a line that lacks the component (time-only line for a date atom, date-only line for a time atom) must "
 		"not be selected by = < <= > >= (!= skipped: not stated); a date constant against the same day carrying a time of day and date-time constants against lines "
 		"without a time are skipped (not stated). With -i the formats also read the expression's constants, as dgrep's main() arranges. "
+		"%%G %%g %%_g %%V are also judged on every day Dec 28 .. Jan 4 of the 28 turns of the year 2000/01 .. 2027/28 (all weekday x leap combinations) against "
+		"the constant printed for Jan 4 (quick: six operators, plain; thorough: all spellings, plain and negated). "
 		"Abbreviated years (%%y %%g %%_y %%_g, and %%G) are judged against what the library prints for the same specifier (dconv -f SPEC) on days whose ISO year differs "
 		"from the calendar year and mid-year days. Weekday numbers follow the Sunday = 0 or 7 reading: dgrep's %%w/%%u atoms compare with 7 for a Sunday "
 		"(%%w=7 selects Sundays, %%w=0 selects nothing; dconv -f %%w prints 07), which is not judged. "
@@ -1926,6 +2003,18 @@ main(int argc, char *argv[])
 				for (int neg = 0; neg < 2; neg++, id++) {
 					if (ex_mine(id)) {
 						do_atom(fi, oi, neg, 0);
+					}
+				}
+			}
+		}
+		/* ISO year and week atoms around every turn of the year (quick: the six comparison operators, plain) */
+		for (int si = 0; si < 4; si++) {
+			for (int yi = 0; yi < TURN_NY; yi++) {
+				for (int oi = 0; oi < (ex.thorough ? NAOP : 6); oi++) {
+					for (int neg = 0; neg < (ex.thorough ? 2 : 1); neg++, id++) {
+						if (ex_mine(id)) {
+							do_turn(si, yi, oi, neg, 0);
+						}
 					}
 				}
 			}
